@@ -10,7 +10,7 @@ import copy
 import random
 
 from collections import deque, namedtuple
-from urllib.parse import urlsplit, quote, quote_plus, unquote, unquote_plus
+from urllib.parse import urlsplit, urljoin, quote, quote_plus, unquote, unquote_plus
 from contextlib import contextmanager
 
 from ... import help
@@ -998,6 +998,12 @@ class Client():
         if self.redirects:
             redirect = self.redirects[-1]
             location = redirect['headers'].get('location')
+            # location may be relative to url of request that got redirected
+            base = "{0}://{1}:{2}{3}".format(self.requester.scheme,
+                                             self.requester.hostname,
+                                             self.requester.port,
+                                             self.requester.path)
+            location = urljoin(base, location)
             path, sep, query = location.partition('?')
             path = unquote(path)
             if sep:
